@@ -1022,6 +1022,10 @@ def check(run, fx, tier, floors=True):
         t18_vsi(run, fx)
         t18_mask(run, fx)
         t18_stack(run, fx, floors)
+    if floors:
+        # a charstring without its own vsindex blends with its Private DICT's: the DICTs must still be unstripped when charstrings are instanced
+        import rules_C12
+        rules_C12.r12_pdo(run, fx)
     t18_ops(run, fx, floors)
     dom = t18_vop(run, fx, floors)
     t18_disp(run, fx, dom, floors)
